@@ -40,7 +40,7 @@ func leafForms() []int {
 		for i := 0; i < lfCount; i++ {
 			all = append(all, i)
 		}
-		return append(all, lfEmptyQuoted, lfNonASCII, lfEqSpecial, lfListInt, lfRangeBig, lfEqBig, lfWildField, lfQuotedDigits, lfRangeMixed, lfQuotedWild, lfQuotedRegexp, lfFloatWhole, lfEqHuge)
+		return append(all, lfEmptyQuoted, lfNonASCII, lfEqSpecial, lfListInt, lfRangeBig, lfEqBig, lfWildField, lfQuotedDigits, lfRangeMixed, lfQuotedWild, lfQuotedRegexp, lfFloatWhole, lfEqHuge, lfRegexpBackslash, lfNonASCII3)
 	}
 	if rtParam("LEAVES") == 7 { // default-field alphabet: the full one plus quoted bare terms with wildcard characters
 		all := make([]int, 0, lfCount+2)
@@ -55,6 +55,9 @@ func leafForms() []int {
 			all = append(all, i)
 		}
 		return append(all, lfRangeFloat, lfRangeWhole, lfListInt)
+	}
+	if rtParam("LEAVES") == 11 { // an exclusive and an inclusive range (closed by } and ]) next to plain terms
+		return []int{lfEqStr, lfRangeExcl, lfBare}
 	}
 	if rtParam("LEAVES") == 10 { // bare numbers (printed as -(5) under a minus) next to bare and fielded strings
 		return []int{lfBare, lfBareInt, lfEqStr}
@@ -206,6 +209,7 @@ func lastTokenIsTerm(n *node, parenthesised bool) bool {
 // H_TreeJuxtapose (C07): one AND node of the tree written as juxtaposition; whenever both texts
 // parse the trees must be identical. A rejected juxtaposition is informational.
 func H_TreeJuxtapose() {
+	oneDigitInts = rtParam("ONEDIGIT") == 1
 	t := genTree(rtParam("D"), treeOps(), leafForms())
 	ands := collect(t, nAnd, nil)
 	if len(ands) == 0 {
